@@ -407,3 +407,134 @@ theorem copyFlattenedSecs_exact' (secs : List Section) (dst : List Byte) (flags 
       rw [hcond, hinit k hk]; rfl
 
 end AsmjitVerif.Sections
+
+namespace AsmjitVerif.Sections
+
+/-! ### copy_section_data -/
+
+/-- the specified result of `copy_section_data`, byte `k` -/
+def sectionImageByte (s : Section) (flags : CopyFlags) (init : Nat → Byte) (k : Nat) : Byte :=
+  match s.data[k]? with
+  | some d => d
+  | none => if flags.padSection then 0 else init k
+
+theorem copySection_no_fault' (h : Holder) (dst : List Byte) (id : Nat) (flags : CopyFlags) :
+    copySection h dst id flags ≠ .fault := by
+  unfold copySection
+  split
+  · simp
+  · split
+    · simp
+    · rename_i s _
+      dsimp only
+      split
+      · simp
+      · rename_i hn
+        have hbuf : s.data.length = s.bufSize := rfl
+        obtain ⟨d1, hd1⟩ := writeAt_isSome (dst := dst) (off := 0) (bytes := s.data) (by omega)
+        rw [hd1]
+        dsimp only
+        split
+        · obtain ⟨d2, hd2⟩ := writeAt_isSome (dst := d1) (off := s.bufSize) (bytes := zeros (dst.length - s.bufSize)) (by
+            rw [zeros_length, writeAt_length hd1]; omega)
+          rw [hd2]; simp
+        · simp
+
+theorem copySection_spec' (h : Holder) (dst : List Byte) (id : Nat) (flags : CopyFlags) (s : Section)
+    (hv : h.validId id = true) (hs : findSec h.secs id = some s) :
+    (dst.length < s.bufSize → copySection h dst id flags = .error .invalidArgument) ∧
+    (s.bufSize ≤ dst.length → ∃ d, copySection h dst id flags = .ok d ∧ d.length = dst.length ∧
+        ∀ k, k < dst.length → d[k]? = some (sectionImageByte s flags (fun i => dst.getD i 0) k)) := by
+  have hbuf : s.data.length = s.bufSize := rfl
+  have hinit : ∀ k, k < dst.length → dst[k]? = some (dst.getD k 0) := by
+    intro k hk
+    simp [List.getD_eq_getElem?_getD, List.getElem?_eq_getElem hk]
+  constructor
+  · intro hlt
+    unfold copySection
+    simp only [hv, Bool.not_true, Bool.false_eq_true, if_false, hs]
+    rw [if_pos hlt]
+  · intro hle
+    obtain ⟨d1, hd1⟩ := writeAt_isSome (dst := dst) (off := 0) (bytes := s.data) (by omega)
+    have hl1 := writeAt_length hd1
+    unfold copySection
+    simp only [hv, Bool.not_true, Bool.false_eq_true, if_false, hs]
+    rw [if_neg (by omega), hd1]
+    dsimp only
+    by_cases hc : (decide (s.bufSize < dst.length) && flags.padSection) = true
+    · rw [if_pos hc]
+      simp only [Bool.and_eq_true, decide_eq_true_eq] at hc
+      obtain ⟨d2, hd2⟩ := writeAt_isSome (dst := d1) (off := s.bufSize) (bytes := zeros (dst.length - s.bufSize)) (by
+        rw [zeros_length, hl1]; omega)
+      rw [hd2]
+      refine ⟨d2, rfl, by rw [writeAt_length hd2, hl1], ?_⟩
+      intro k hk
+      rw [writeAt_get hd2, writeAt_get hd1, zeros_length]
+      unfold sectionImageByte
+      by_cases hk1 : k < s.bufSize
+      · rw [if_neg (by omega), if_pos (by omega)]
+        have : k - 0 = k := by omega
+        rw [this, List.getElem?_eq_getElem (by omega)]
+      · rw [if_pos (by omega), zeros_get, if_pos (by omega), List.getElem?_eq_none (l := s.data) (by omega)]
+        simp [hc.2]
+    · rw [if_neg hc]
+      refine ⟨d1, rfl, hl1, ?_⟩
+      intro k hk
+      rw [writeAt_get hd1]
+      unfold sectionImageByte
+      by_cases hk1 : k < s.bufSize
+      · rw [if_pos (by omega)]
+        have : k - 0 = k := by omega
+        rw [this, List.getElem?_eq_getElem (by omega)]
+      · rw [if_neg (by omega), List.getElem?_eq_none (l := s.data) (by omega), hinit k hk]
+        simp only [Bool.and_eq_true, decide_eq_true_eq, not_and] at hc
+        have hps : flags.padSection = false := by
+          cases hp : flags.padSection with
+          | false => rfl
+          | true => exact absurd hp (hc (by omega))
+        simp [hps]
+
+/-! ### the copy loop of JitRuntime::_add -/
+
+theorem writeAt_nil (d : List Byte) (off : Nat) (h : off ≤ d.length) : writeAt d off [] = some d := by
+  unfold writeAt
+  simp [h]
+
+/-- on a span that holds every section (`offset + real_size ≤ span size`, the two `ASMJIT_ASSERT`s of `_add`) the loop of
+    `_add` performs exactly the writes of `copy_flattened_data(kPadSectionBuffer)` -/
+theorem jitCopy_eq_copyLoop (l : List Section) (dst : List Byte) (e : Nat)
+    (hfit : ∀ s ∈ l, s.offset + s.realSize ≤ dst.length) :
+    ∃ d e', copyLoop { padSection := true, padTarget := false } l dst e = some (.ok (d, e')) ∧ jitCopy l dst = some d := by
+  induction l generalizing dst e with
+  | nil => exact ⟨dst, e, rfl, rfl⟩
+  | cons s rest ih =>
+    have hs := hfit s (by simp)
+    have hbuf : s.data.length = s.bufSize := rfl
+    have hreal : s.bufSize ≤ s.realSize ∧ s.vsize ≤ s.realSize := by unfold Section.realSize; omega
+    obtain ⟨d1, hd1⟩ := writeAt_isSome (dst := dst) (off := s.offset) (bytes := s.data) (by omega)
+    have hl1 := writeAt_length hd1
+    unfold copyLoop jitCopy
+    dsimp only
+    rw [if_neg (by omega), if_neg (by omega), hd1]
+    dsimp only
+    unfold padLen
+    by_cases hv : s.bufSize < s.vsize
+    · have hmin : min (dst.length - s.offset) s.vsize - s.bufSize = s.vsize - s.bufSize := by omega
+      simp only [hv, decide_true, Bool.and_self, if_true, hmin]
+      obtain ⟨d2, hd2⟩ := writeAt_isSome (dst := d1) (off := s.offset + s.bufSize) (bytes := zeros (s.vsize - s.bufSize)) (by
+        rw [zeros_length, hl1]; omega)
+      rw [hd2]
+      dsimp only
+      have hl2 := writeAt_length hd2
+      obtain ⟨d, e', h1, h2⟩ := ih d2 (max e (s.offset + s.bufSize + (s.vsize - s.bufSize))) (by
+        intro t ht; rw [hl2, hl1]; exact hfit t (by simp [ht]))
+      exact ⟨d, e', h1, h2⟩
+    · simp only [hv, decide_false, Bool.and_false, Bool.false_eq_true, if_false]
+      have hz : zeros 0 = [] := rfl
+      rw [hz, writeAt_nil d1 _ (by rw [hl1]; omega)]
+      dsimp only
+      obtain ⟨d, e', h1, h2⟩ := ih d1 (max e (s.offset + s.bufSize + 0)) (by
+        intro t ht; rw [hl1]; exact hfit t (by simp [ht]))
+      exact ⟨d, e', h1, h2⟩
+
+end AsmjitVerif.Sections
